@@ -1,6 +1,6 @@
 (** Property C08 — redeemers are attached to the item they were written for. *)
 From stdpp Require Import sorting.
-From Tx3 Require Import Base Tir Reduce PlutusData Compile Compile_proofs Compile_sorted Compile_redeemers.
+From Tx3 Require Import Base Tir Reduce PlutusData Compile Compile_proofs Compile_sorted Compile_redeemers Compile_accounts.
 
 (** the list the spend index is taken from is a permutation of the body inputs ... *)
 Theorem C08_sorted_inputs_perm : forall l, sort_refs l ≡ₚ l.
@@ -49,6 +49,16 @@ Theorem C08_mint_redeemer_needs_policy : forall ms minted m x xs p p',
   forall rs, mint_redeemers ms minted <> Ok rs.
 Proof. exact mint_redeemer_needs_policy. Qed.
 
+(** the list a Reward redeemer is looked up in is ascending in the ledger's order of reward
+    accounts (network, script credentials before key credentials, hash), and the index found for
+    an account is its rank in that order (finding F08-4, repaired: the accounts were ranked by
+    their bytes, which puts key credentials first) *)
+Theorem C08_reward_accounts_sorted : forall l, Forall wf_acct l -> StronglySorted (le_by acct_ltb) (sort_accts l).
+Proof. exact sort_accts_sorted. Qed.
+Theorem C08_reward_index_is_ledger_rank : forall l x k, Forall wf_acct l ->
+  position (fun y => bool_decide (y = x)) (sort_accts l) = Some k -> k = rank_by acct_ltb x l.
+Proof. exact reward_index_is_ledger_rank. Qed.
+
 Print Assumptions C08_sorted_inputs_sorted.
 Print Assumptions C08_index_is_rank.
 Print Assumptions C08_sorted_inputs_perm.
@@ -56,3 +66,5 @@ Print Assumptions C08_index_points_at_item.
 Print Assumptions C08_order_strict_total.
 Print Assumptions C08_mint_redeemer_points_at_policy.
 Print Assumptions C08_mint_redeemer_needs_policy.
+Print Assumptions C08_reward_accounts_sorted.
+Print Assumptions C08_reward_index_is_ledger_rank.
